@@ -37,6 +37,7 @@ def main() -> int:
     ap.add_argument("--tier", default="quick")
     ap.add_argument("--skip-suite", action="store_true")
     ap.add_argument("--checks", nargs="*")
+    ap.add_argument("--store", action="store_true", help="keep the confirmed change under /verif/seeded/<ID><suffix>/")
     args = ap.parse_args()
     d = Path(args.dir)
     patch = d / f"patch{args.suffix}.diff"
@@ -88,6 +89,29 @@ def main() -> int:
     finally:
         shutil.rmtree(scratch, ignore_errors=True)
     print(json.dumps(out, indent=1))
+    confirmed = out.get("demo_clean_rc") == 0 and out.get("demo_patched_rc") not in (0, None) and out.get("suite_rc") in (0, None) and out.get("apply_rc") == 0
+    if args.store and confirmed:
+        dest = VERIF / "seeded" / f"{args.prop}{args.suffix}"
+        dest.mkdir(parents=True, exist_ok=True)
+        shutil.copy(patch, dest / "patch.diff")
+        shutil.copy(demo, dest / "demo.py")
+        meta = {}
+        mp_ = d / f"meta{args.suffix}.json"
+        if mp_.exists():
+            try:
+                meta = json.loads(mp_.read_text())
+            except ValueError:
+                meta = {"raw": mp_.read_text()}
+        meta["property"] = args.prop
+        meta["confirmed_by_coordinator"] = {
+            "how": "vp/seedtest.py on a scratch copy of /repo: demo.py exit 0 on clean copy, patch applies, demo.py non-zero on patched copy, "
+            "repository test suite (PYTHONPATH=<copy>/src pytest -x) still green, then the checks' quick commands with VERIF_SRC=<copy>/src",
+            "result": out,
+        }
+        (dest / "meta.json").write_text(json.dumps(meta, indent=1) + "\n")
+        print("stored under", dest)
+    elif args.store:
+        print("NOT stored: change not confirmed")
     return 0
 
 
